@@ -2,7 +2,7 @@
    Every theorem quantifies over ALL operation histories / stores; the model
    is tied to lnd's KVStore and SQLStore by the correspondence run. *)
 From Coq Require Import List NArith Bool.
-From LV Require Import Payments.Model Payments.Proofs Payments.Lin Payments.LinProofs.
+From LV Require Import Payments.Model Payments.Proofs Payments.ShardProofs Payments.Lin Payments.LinProofs.
 Import ListNotations.
 Local Open Scope N_scope.
 
@@ -31,6 +31,33 @@ Theorem C16_register_gate : forall b s h a s' r,
     w64 (sent (atts p) + amt a) <= value p /\
     (b = SQL -> find_global s (aid a) = None).
 Proof. exact register_gate. Qed.
+
+(* Which shard is admitted next to the stored in-flight shards (verifyAttempt's
+   blinded / MPP ladder), both directions, both backends.
+   (1) soundness: an admitted attempt is well formed (blinded: total_amt_msat
+   set and no MPP record; neither blinded nor MPP: pays the whole amount) and
+   compatible with EVERY stored in-flight attempt (same kind; blinded: same
+   total_amt_msat, stored shard without MPP record; else same MPP record).
+   (2) completeness: on a payment that is registrable, within the amount domain,
+   a well-formed attempt that is compatible with every stored in-flight attempt
+   and keeps settled + in-flight within the amount IS admitted (SQL: given an
+   unused attempt id) and the stored payment gains it — the store has no other
+   reason to refuse a shard. *)
+Theorem C16_shard_admission :
+  (forall b s h a s' r,
+     step b s (ORegister h a) = (s', r) -> rerr r = EOk ->
+     exists p, lookup s h = Some p /\
+       shard_wf (value p) a = true /\
+       (forall x, In x (atts p) -> is_inflight x = true -> shard_compat a x = true)) /\
+  (forall b s h a p,
+     lookup s h = Some p -> pay_inv p -> amt a < two63 ->
+     registrable p = EOk -> shard_wf (value p) a = true ->
+     (forall x, In x (atts p) -> is_inflight x = true -> shard_compat a x = true) ->
+     sent (atts p) + amt a <= value p ->
+     (b = SQL -> find_global s (aid a) = None) ->
+     let p' := mkPay (value p) (put_att (atts p) (with_out a Inflight)) (reason p) in
+     step b s (ORegister h a) = (put s h p', r_pay p')).
+Proof. split; [exact register_consistent | exact register_admits]. Qed.
 
 (* InitPayment succeeds only from absent or Failed (then the payment starts
    afresh); on Initiated / InFlight / Succeeded it is refused and nothing
